@@ -54,7 +54,7 @@ class HashModel:
         self.count += 1
         key = (alg,) + tuple(a.get_id() for a in args)
         if key in self.cache:
-            return Dig(alg, self.cache[key][1])
+            return Dig(alg, self.cache[key][1], self.cache[key][2])
         n = len(args)
         fkey = (alg, n)
         if fkey not in self.funcs:
@@ -64,7 +64,7 @@ class HashModel:
         e = pse.cur()
         concrete = all(z3.is_int_value(a) for a in args)
         if concrete and self.concrete_ids:
-            self._next += 1
+            self._next += 1000  # room between concrete values for symbolic ones
             val = z3.IntVal(self._next)
             e.add(term == val)
             others = self.sym_terms
@@ -86,8 +86,8 @@ class HashModel:
                     e.add(same == (v2 == val))
             else:
                 e.add(v2 != val)
-        self.cache[key] = (args, val)  # keep args alive: ast ids are only unique among live terms
-        return Dig(alg, val)
+        self.cache[key] = (args, val, len(self.cache))  # keep args alive: ast ids are only unique among live terms
+        return Dig(alg, val, self.cache[key][2])
 
 
 class Chunk:
